@@ -72,6 +72,14 @@ theorem valueSetI_ok (S : Schema) (ty : Nat) (u : Updater) (before after : Optio
       exact ⟨rfl, r, rfl, h.1.symm, h.2.symm⟩
   all_goals cases h
 
+/-- The masks of a `Set` call of a trait server: the request's mask, the server's reset paths, the
+resource's writable fields (normalised by `WithWritablePaths`). -/
+theorem rpcAsStated_updater (resW R reqMask : Option (List Path)) :
+    (fieldUpdater resW none false reqMask R).update = reqMask ∧
+    (fieldUpdater resW none false reqMask R).reset = R ∧
+    (fieldUpdater resW none false reqMask R).writable = resW.map (fun w => union w []) := by
+  rw [fieldUpdater_eq]; cases resW <;> simp
+
 /-! ## The driver's interceptor family -/
 
 /-- An integer token (`i<decimal>`; an unpopulated field is 0). -/
